@@ -69,9 +69,24 @@ def main(argv=None):
     n_done = 0
     deadline = getattr(mod, 'DEADLINE', {}).get(tier)
     capped = False
-    for case, res in pool.run(a.prop, cases, backends=getattr(mod, 'BACKENDS', ()),
-                              budget=getattr(mod, 'CASE_BUDGET', 180), x64=getattr(mod, 'X64', None),
-                              chunksize=getattr(mod, 'CHUNK', 1)):
+    budget = getattr(mod, 'CASE_BUDGET', 180)
+    timed_out = []
+
+    def results():
+        # a case that exceeds its time budget is run once more, alone-ish and with six times the budget, before it
+        # counts: on a loaded machine an f2py build or a large enumeration step can be slow without being wrong
+        for case, res in pool.run(a.prop, cases, backends=getattr(mod, 'BACKENDS', ()), budget=budget,
+                                  x64=getattr(mod, 'X64', None), chunksize=getattr(mod, 'CHUNK', 1)):
+            if not res.get('ok') and (res.get('viol') or {}).get('kind') == 'timeout':
+                timed_out.append(case)
+            else:
+                yield case, res
+        if timed_out:
+            ev.cov['cases_retried_after_timeout'] = len(timed_out)
+            yield from pool.run(a.prop, timed_out, backends=getattr(mod, 'BACKENDS', ()), budget=6 * budget,
+                                x64=getattr(mod, 'X64', None), nproc=4)
+
+    for case, res in results():
         n_done += 1
         ev.count('evaluations', res.get('evals', 1))
         ev.count('traces_validated_against_impl', 1)
